@@ -92,6 +92,8 @@ func TestC02(t *testing.T) {
 		// (up to 6 periods; one configuration in five has up to 14, so that a single block - the twin's, or the
 		// first one after a long pause - can pass a dozen period ends at once)
 		cfg := GenMinterCfg(t, []int{6, 6, 6, 6, 14}[rapid.IntRange(0, 4).Draw(t, "maxPeriods")], 300, 36)
+		// the mint denomination is the chain's choice: the native token, another token, an IBC voucher
+		cfg.Denom = []string{Denom, Denom, Denom, "uatom", "uenergy", "ibc/27394FB092D2ECCD56123C74F36E4C1F926001CEADA9CA97EA622B25F41E5EB2"}[rapid.IntRange(0, 5).Draw(t, "mintDenom")]
 		params, sched := cfg.Build()
 		if err := params.Validate(); err != nil {
 			st.Class("generator_rejected_by_validate")
